@@ -37,6 +37,10 @@ func replay(cw *caseWriter, path string) {
 			c19exec(cw, strings.TrimRight(tag, "cb"), in)
 		case 1:
 			c01clExec(cw, tag, in)
+		case 101:
+			in2, obs, leaders := c101Run(in)
+			c101monitor(cw, tag, in2, obs)
+			cw.emit(tag, 101, in2, obs, leaders >= 1)
 		case 5:
 			c05exec(cw, tag, in)
 		case 6:
@@ -87,6 +91,10 @@ func replay(cw *caseWriter, path string) {
 func main() {
 	if len(os.Args) >= 2 && os.Args[1] == "c15child" {
 		c15child(os.Args[2:])
+		return
+	}
+	if len(os.Args) >= 2 && os.Args[1] == "c101batch" {
+		c101Batch()
 		return
 	}
 	if len(os.Args) >= 2 && os.Args[1] == "c01clbatch" {
@@ -140,6 +148,8 @@ func main() {
 		runC16(cw, tier, seed)
 	case "c15":
 		runC15(cw, tier, seed)
+	case "c101":
+		runC101(cw, tier, seed)
 	case "c01cl":
 		runC01cluster(cw, tier, seed)
 	case "c17":
